@@ -24,6 +24,30 @@ def checkKey : GoVal → Res Label
   | .str s => .ok (.text s)
   | _ => .err "label"
 
+/-- `toKey` (reflection over the keys of a plain Go map handed to `GetMap`): every integer kind, range-checked; strings -/
+def toKey : GoVal → Res Label
+  | .int k v =>
+    if k.signed then (if minInt32 ≤ v ∧ v ≤ maxInt32 then .ok (.int v) else .err "label")
+    else (if v ≤ maxInt32 then .ok (.int v) else .err "label")
+  | .str s => .ok (.text s)
+  | _ => .err "label"
+
+def toKeys : List (GoVal × GoVal) → Res (List Label)
+  | [] => .ok []
+  | (k, _) :: r =>
+    match toKey k, toKeys r with
+    | .ok l, .ok ls => .ok (l :: ls)
+    | .err e, _ => .err e
+    | _, .err e => .err e
+    | .panic p, _ => .panic p
+    | _, .panic p => .panic p
+
+/-- `CoseMap.GetMap` on a plain Go map value: the labels of the returned map (absent ↦ nil map) -/
+def getMap : Option GoVal → Res (Option (List Label))
+  | none => .ok none
+  | some (.map kvs) => (match toKeys kvs with | .ok ls => .ok (some ls) | .err e => .err e | .panic p => .panic p)
+  | some _ => .err "type"
+
 def Label.toCbor : Label → Cbor
   | .int i => Cbor.ofInt i
   | .text s => .tstr s
